@@ -165,6 +165,18 @@ class Canon(ast.NodeTransformer):
         self.generic_visit(n)
         # `x.fill(c)` == `x[:] = c`
         v = n.value
+        # `d.update({K: V for T in IT})` == `for T in IT: d[K] = V`
+        if isinstance(v, ast.Call) and isinstance(v.func, ast.Attribute) and \
+                v.func.attr == 'update' and len(v.args) == 1 and not \
+                v.keywords and isinstance(v.args[0], ast.DictComp) and len(
+                    v.args[0].generators) == 1 and not \
+                v.args[0].generators[0].ifs:
+            dc = v.args[0]
+            g = dc.generators[0]
+            st = ast.copy_location(ast.Assign([ast.copy_location(
+                ast.Subscript(v.func.value, dc.key, ast.Store()), v)],
+                dc.value), n)
+            return ast.copy_location(ast.For(g.target, g.iter, [st], []), n)
         if isinstance(v, ast.Call) and isinstance(v.func, ast.Attribute) and \
                 v.func.attr == 'fill' and len(v.args) == 1 and not v.keywords:
             tgt = ast.copy_location(ast.Subscript(
